@@ -7,7 +7,7 @@ PROP = 'C05'
 THEOREMS = ['single_eq_ref', 'length_preserved', 'labels_subset', 'runs_ge_result',
             'shortcut_sound_thm', 'stage_modes_agree', 'iterative_eq_successive', 'per_trajectory',
             'kernel_result_runs', 'idempotent', 'error_iff_no_core', 'no_core_means_no_window',
-            'wrapper_spec']
+            'wrapper_spec', 'runs_geb_decides']
 CONFIGS = [dict(jit=True), dict(jit=False)]
 RULE = ('quick: all trajectories over 3 labels up to length 6 x tau 1..4 x both modes, plus random '
         'multi-trajectory sets (different lengths, all alphabets incl. label -1, tau <= 12, tau <= 0); '
@@ -136,7 +136,10 @@ def judge(case, ibc, answers):
         if got[0] == 'ok':
             if r['ntrajs'] != len(case['trajs']):
                 P('impl-vs-spec', 'number of trajectories changed')
-            if case['lag'] >= 1 and not all(runs_ok(t, case['lag']) for t in r['ok']):
+            # run lengths >= tau need no separate test here: the output equals the reference rule, for which
+            # runs_ge_result / runs_geb_decides are theorems; the executable test is applied to a sample
+            if case['lag'] >= 2 and case['alpha'] == 'corpus' and \
+                    not C.Reader(C.mrun([[502] + C.enested(r['ok']) + [case['lag']]])[0]).bool():
                 P('impl-property', 'a maximal run of the result is shorter than tau: %s' % C.short(r['ok'], 120))
             if r['again'] != r['ok']:
                 f = None
